@@ -107,24 +107,127 @@ theorem scopeStr_eq (p : Str) (sc : Scope) (h : scOk sc = true) :
   | path idx => simp [scopeStr, scopeIdx, scIdx]
   | pos q => simp [scOk] at h
 
+theorem scopeIdx_inj {a b : List Nat} (h : scopeIdx a = scopeIdx b) : a = b := by
+  have h' : ([] : Str) ++ scopeIdx a = [] ++ scopeIdx b := by simpa using h
+  have := congrArg segs h'
+  rw [segs_name_scope _ _ (by simp), segs_name_scope _ _ (by simp)] at this
+  exact map_dec_inj _ _ (by simpa using this)
+
+theorem scopeIdx_clean (idx : List Nat) : Clean (scopeIdx idx) := by
+  intro c hc
+  simp [scopeIdx] at hc
+  obtain ⟨i, _, h⟩ := hc
+  rcases h with rfl | h
+  · decide
+  · exact isDigit_path (dec_isDigit i c h)
+
+/-- what `TypeName` writes after `_llgo_` for a named type: the key with the bracketed type
+    arguments between name and scope -/
+def renderNamed (k : Key) (args : Str) : Str :=
+  match k with
+  | (none, name, _) => name ++ args
+  | (some p, name, idx) => p ++ '.' :: (name ++ args ++ scopeIdx idx)
+
+/-- an argument part: nothing, or a balanced text in brackets -/
+def ArgsShape (a : Str) : Prop := a = [] ∨ ∃ A, a = '[' :: A ++ [']'] ∧ Balanced A
+
+theorem renderNamed_nil (k : Key) : renderNamed k [] = renderKey k := by
+  obtain ⟨p, n, i⟩ := k
+  cases p <;> simp [renderNamed, renderKey]
+
+theorem renderNamed_inj {k₁ k₂ : Key} {a₁ a₂ : Str} (h1 : KeyOk k₁) (h2 : KeyOk k₂)
+    (s1 : ArgsShape a₁) (s2 : ArgsShape a₂) (n1 : k₁.1 = none → a₁ = []) (n2 : k₂.1 = none → a₂ = [])
+    (h : renderNamed k₁ a₁ = renderNamed k₂ a₂) : k₁ = k₂ ∧ a₁ = a₂ := by
+  obtain ⟨p₁, nm₁, i₁⟩ := k₁
+  obtain ⟨p₂, nm₂, i₂⟩ := k₂
+  have hn₁ := h1.1
+  have hn₂ := h2.1
+  simp only at hn₁ hn₂ n1 n2
+  have both_nil : a₁ = [] → a₂ = [] → (p₁, nm₁, i₁) = (p₂, nm₂, i₂) ∧ a₁ = a₂ := by
+    intro e1 e2
+    subst e1; subst e2
+    rw [renderNamed_nil, renderNamed_nil] at h
+    exact ⟨renderKey_inj h1 h2 h, rfl⟩
+  cases p₁ with
+  | none =>
+    have e1 := n1 rfl
+    cases p₂ with
+    | none => exact both_nil e1 (n2 rfl)
+    | some q =>
+      subst e1
+      simp only [renderNamed, List.append_nil] at h
+      have : '.' ∈ nm₁ := by rw [h]; simp
+      exact absurd this (identOk_notin hn₁).1
+  | some p =>
+    cases p₂ with
+    | none =>
+      have e2 := n2 rfl
+      subst e2
+      simp only [renderNamed, List.append_nil] at h
+      have : '.' ∈ nm₂ := by rw [← h]; simp
+      exact absurd this (identOk_notin hn₂).1
+    | some q =>
+      have hp : Clean p := h1.2
+      have hq : Clean q := h2.2
+      have nob : ∀ (P nm : Str) (idx : List Nat), Clean P → identOk nm = true → '[' ∉ P ++ '.' :: (nm ++ scopeIdx idx) := by
+        intro P nm idx hP hnm hm
+        have hc : Clean (P ++ '.' :: (nm ++ scopeIdx idx)) :=
+          clean_append hP (clean_cons (by decide) (clean_append (identOk_clean hnm) (scopeIdx_clean idx)))
+        have := hc _ hm; revert this; decide
+      rcases s1 with e1 | ⟨A₁, e1, b1⟩ <;> rcases s2 with e2 | ⟨A₂, e2, b2⟩
+      · exact both_nil e1 e2
+      · exfalso
+        subst e1; subst e2
+        simp only [renderNamed, List.append_nil] at h
+        have : '[' ∈ p ++ '.' :: (nm₁ ++ scopeIdx i₁) := by rw [h]; simp
+        exact nob p nm₁ i₁ hp hn₁ this
+      · exfalso
+        subst e1; subst e2
+        simp only [renderNamed, List.append_nil] at h
+        have : '[' ∈ q ++ '.' :: (nm₂ ++ scopeIdx i₂) := by rw [← h]; simp
+        exact nob q nm₂ i₂ hq hn₂ this
+      · subst e1; subst e2
+        simp only [renderNamed] at h
+        have h' : (p ++ '.' :: nm₁) ++ '[' :: (A₁ ++ ']' :: scopeIdx i₁) = (q ++ '.' :: nm₂) ++ '[' :: (A₂ ++ ']' :: scopeIdx i₂) := by
+          simpa using h
+        have nb1 : '[' ∉ p ++ '.' :: nm₁ := by
+          have := nob p nm₁ [] hp hn₁; simpa [scopeIdx] using this
+        have nb2 : '[' ∉ q ++ '.' :: nm₂ := by
+          have := nob q nm₂ [] hq hn₂; simpa [scopeIdx] using this
+        have sp := splitFirst '[' _ _ _ _ nb1 nb2 h'
+        have sc := split_close_key b1 b2 sp.2
+        have hk : ((some p, nm₁, ([] : List Nat)) : Key) = (some q, nm₂, []) := by
+          apply renderKey_inj (k₁ := (some p, nm₁, [])) (k₂ := (some q, nm₂, [])) ⟨hn₁, h1.2⟩ ⟨hn₂, h2.2⟩
+          simpa [renderKey, scopeIdx] using sp.1
+        have hi := scopeIdx_inj sc.2
+        simp only [Prod.mk.injEq, Option.some.injEq] at hk
+        rw [hk.1, hk.2.1, hi, sc.1]
+        exact ⟨rfl, rfl⟩
+
 theorem name_named_eq (hc : Str → Str) {cfg : Cfg} {ex : Str → Bool} (d : Nat) (pkg : Option Str) (name : Str) (sc : Scope) (targs : TList)
     (h : wfT cfg ex (.named d pkg name sc targs) = true) :
-    nameC cfg hc false (.named d pkg name sc targs) = llgoPrefix ++ renderKey (keyOf pkg name sc) ∧ KeyOk (keyOf pkg name sc) := by
-  simp only [wfT, Bool.and_eq_true] at h
-  obtain ⟨⟨⟨hn, ht⟩, hs⟩, hp⟩ := h
-  cases targs with
-  | cons _ _ => simp [TList.isNil] at ht
-  | nil =>
-    simp only [nameC, namedName, TList.isNil, if_true, List.append_nil]
-    cases pkg with
-    | none =>
-      simp only [fullName, keyOf, renderKey, scopeStr, List.append_nil]
-      refine ⟨trivial, hn, rfl, ?_⟩
-      simpa using hp
-    | some p =>
-      simp only [fullName, keyOf, renderKey, scopeStr_eq p sc hs]
-      exact ⟨trivial, hn, pathOf_chars (pathOk_chars hp)⟩
-
+    nameC cfg hc false (.named d pkg name sc targs) = llgoPrefix ++ renderNamed (keyOf pkg name sc) (argsPart targs) ∧
+      KeyOk (keyOf pkg name sc) ∧ ArgsShape (argsPart targs) ∧ ((keyOf pkg name sc).1 = none → argsPart targs = []) := by
+  obtain ⟨hn, ht, hs, hp, hq⟩ := name_named_shape d pkg name sc targs h
+  have shape : ArgsShape (argsPart targs) := by
+    unfold argsPart
+    split
+    · exact Or.inl rfl
+    · exact Or.inr ⟨_, rfl, (argStrs_inv targs ht).bal⟩
+  simp only [nameC, namedName_eq]
+  cases pkg with
+  | none =>
+    have : targs = .nil := by
+      rcases hq with hq | hq
+      · simp at hq
+      · exact hq
+    subst this
+    simp only [fullName, keyOf, renderNamed, scopeStr, List.append_nil]
+    refine ⟨trivial, ⟨hn, rfl, ?_⟩, shape, fun _ => by simp [argsPart, TList.isNil]⟩
+    simpa [namedPkgOk] using hp
+  | some p =>
+    simp only [fullName, keyOf, renderNamed, scopeStr_eq p sc hs]
+    refine ⟨trivial, ⟨hn, pathOf_chars (pathOk_chars (namedPkgOk_some hp).1)⟩, shape, fun e => by simp at e⟩
 
 /-! ## identity of field / method lists without the package component -/
 
@@ -491,6 +594,341 @@ macro "mismatch" hc1:ident hc2:ident : tactic => `(tactic|
      simp [typeClass, MList.isNil] at hx
    · simp [identical, unalias] at h))
 
+/-! ## type arguments: `typeArgString` determines the argument (covered fragment `wfArg`) -/
+
+/-- 1 = starts with `*`, 2 = starts with `[`, 0 = anything else -/
+def argHead : Str → Nat
+  | '*' :: _ => 1
+  | '[' :: _ => 2
+  | _ => 0
+
+def argKind : GoType → Nat
+  | .pointer _ => 1
+  | .slice _ => 2
+  | .alias _ a => argKind a
+  | _ => 0
+
+theorem argStr_unalias : ∀ (t : GoType), argStr t = argStr (unalias t)
+  | .alias _ b => by rw [unalias, argStr]; exact argStr_unalias b
+  | .basic _ => by simp [unalias]
+  | .pointer _ => by simp [unalias]
+  | .slice _ => by simp [unalias]
+  | .array _ _ => by simp [unalias]
+  | .map _ _ => by simp [unalias]
+  | .chan _ _ => by simp [unalias]
+  | .func _ _ _ => by simp [unalias]
+  | .struct _ => by simp [unalias]
+  | .iface _ => by simp [unalias]
+  | .named _ _ _ _ _ => by simp [unalias]
+
+theorem wfArg_unalias : ∀ (t : GoType), wfArg (unalias t) = wfArg t
+  | .alias _ b => by rw [unalias, wfArg]; exact wfArg_unalias b
+  | .basic _ => by simp [unalias]
+  | .pointer _ => by simp [unalias]
+  | .slice _ => by simp [unalias]
+  | .array _ _ => by simp [unalias]
+  | .map _ _ => by simp [unalias]
+  | .chan _ _ => by simp [unalias]
+  | .func _ _ _ => by simp [unalias]
+  | .struct _ => by simp [unalias]
+  | .iface _ => by simp [unalias]
+  | .named _ _ _ _ _ => by simp [unalias]
+
+/-- a named type argument renders as its key -/
+theorem argStr_named (d : Nat) (pkg : Option Str) (name : Str) (sc : Scope) (targs : TList)
+    (h : wfArg (.named d pkg name sc targs) = true) :
+    argStr (.named d pkg name sc targs) = renderKey (keyOf pkg name sc) ∧ KeyOk (keyOf pkg name sc) ∧ targs = .nil ∧
+      (∀ p, pkg = some p → pathOf p ≠ litUnsafeName) := by
+  simp only [wfArg, Bool.and_eq_true] at h
+  obtain ⟨⟨⟨ht, hn⟩, hs⟩, hp⟩ := h
+  have htn : targs = .nil := by
+    cases targs with
+    | nil => rfl
+    | cons _ _ => simp [TList.isNil] at ht
+  subst htn
+  simp only [argStr, TList.isNil, if_true, List.append_nil]
+  cases pkg with
+  | none =>
+    simp only [keyOf, renderKey, scopeStr, List.append_nil]
+    exact ⟨trivial, ⟨hn, rfl, by simpa [namedPkgOk] using hp⟩, trivial, fun p e => by cases e⟩
+  | some p =>
+    simp only [keyOf, renderKey, scopeStr_eq p sc hs]
+    exact ⟨trivial, ⟨hn, pathOf_chars (pathOk_chars (namedPkgOk_some hp).1)⟩, trivial,
+      fun q e => by cases e; exact (namedPkgOk_some hp).2⟩
+
+theorem argHead_renderKey {k : Key} (hk : KeyOk k) : argHead (renderKey k) = 0 := by
+  obtain ⟨p, nm, idx⟩ := k
+  have hn := hk.1
+  simp only at hn
+  cases p with
+  | none =>
+    simp only [renderKey]
+    cases nm with
+    | nil => simp [identOk] at hn
+    | cons c cs =>
+      have hc := identOk_clean hn c (by simp)
+      unfold argHead
+      split
+      · next h => simp only [List.cons.injEq] at h; rw [h.1] at hc; revert hc; decide
+      · next h => simp only [List.cons.injEq] at h; rw [h.1] at hc; revert hc; decide
+      · rfl
+  | some P =>
+    simp only [renderKey]
+    have hP : Clean P := hk.2
+    cases P with
+    | nil =>
+      simp [argHead]
+    | cons c cs =>
+      have hc := hP c (by simp)
+      unfold argHead
+      split
+      · next h => simp only [List.cons_append, List.cons.injEq] at h; rw [h.1] at hc; revert hc; decide
+      · next h => simp only [List.cons_append, List.cons.injEq] at h; rw [h.1] at hc; revert hc; decide
+      · rfl
+
+theorem argHead_argStr : ∀ (t : GoType), wfArg t = true → argHead (argStr t) = argKind t
+  | .alias _ a, h => by simpa [argStr, argKind] using argHead_argStr a (by simpa [wfArg] using h)
+  | .basic k, _ => by simp only [argStr, argKind]; cases k <;> decide
+  | .pointer e, _ => by simp [argStr, argKind, argHead]
+  | .slice e, _ => by simp [argStr, argKind, argHead]
+  | .named d pkg name sc targs, h => by
+    obtain ⟨e, hk, _, _⟩ := argStr_named d pkg name sc targs h
+    rw [e, argHead_renderKey hk]; rfl
+  | .array _ _, h => by simp [wfArg] at h
+  | .map _ _, h => by simp [wfArg] at h
+  | .chan _ _, h => by simp [wfArg] at h
+  | .func _ _ _, h => by simp [wfArg] at h
+  | .struct _, h => by simp [wfArg] at h
+  | .iface _, h => by simp [wfArg] at h
+
+/-- a canonical basic name is never the rendering of a named argument -/
+theorem basic_ne_named (k : BasicKind) (hk : (k != .byte && k != .rune) = true) (d : Nat) (pkg : Option Str) (name : Str)
+    (sc : Scope) (targs : TList) (h : wfArg (.named d pkg name sc targs) = true) :
+    basicString k ≠ argStr (.named d pkg name sc targs) := by
+  obtain ⟨e, hko, _, hun⟩ := argStr_named d pkg name sc targs h
+  rw [e]
+  intro heq
+  cases pkg with
+  | none =>
+    simp only [keyOf, renderKey] at heq
+    have hr := hko.2.2
+    simp only [keyOf] at hr
+    rw [← heq] at hr
+    have hd := (identOk_notin hko.1).1
+    simp only [keyOf] at hd
+    rw [← heq] at hd
+    revert hr hd; cases k <;> decide
+  | some p =>
+    -- only `unsaf`+`e.Pointer` contains a dot: it would have to be the type `Pointer` of package `unsaf`+`e`
+    have hdot : '.' ∈ basicString k := by rw [heq]; simp [keyOf, renderKey]
+    have hk' : k = .unsafePointer := by revert hdot hk; cases k <;> decide
+    subst hk'
+    have kk : KeyOk ((some litUnsafeName, ['P', 'o', 'i', 'n', 't', 'e', 'r'], []) : Key) := ⟨by decide, by decide⟩
+    have : ((some litUnsafeName, ['P', 'o', 'i', 'n', 't', 'e', 'r'], []) : Key) = keyOf (some p) name sc :=
+      renderKey_inj kk hko (by rw [← heq]; decide)
+    simp only [keyOf, Prod.mk.injEq, Option.some.injEq] at this
+    exact hun p rfl this.1.symm
+
+include hE in
+theorem argInj : ∀ (t₁ t₂ : GoType), wfArg t₁ = true → wfArg t₂ = true → declKeys t₁ ⊆ E → declKeys t₂ ⊆ E →
+    (argStr t₁ = argStr t₂ ↔ identical t₁ t₂ = true)
+  | .alias _ a, t₂, w1, w2, s1, s2 => by
+    simp only [argStr, identical]
+    exact argInj a t₂ (by simpa [wfArg] using w1) w2 (by simpa [declKeys] using s1) s2
+  | .basic k, t₂, w1, w2, _, s2 => by
+    rw [argStr_unalias t₂, identical_unalias_r]
+    have w2' : wfArg (unalias t₂) = true := by rw [wfArg_unalias]; exact w2
+    have hh := argHead_argStr (.basic k) w1
+    have hh2 := argHead_argStr (unalias t₂) w2'
+    have hna := unalias_ne_alias t₂
+    generalize unalias t₂ = u at *
+    cases u with
+    | alias n a => exact absurd rfl (hna n a)
+    | basic k' =>
+      simp only [argStr, identical, unalias, beq_iff_eq]
+      simp only [wfArg] at w1 w2'
+      constructor
+      · intro h; revert h w1 w2'; cases k <;> cases k' <;> decide
+      · intro h; revert h w1 w2'; cases k <;> cases k' <;> decide
+    | named d pkg name sc targs =>
+      refine ⟨fun h => absurd h (basic_ne_named k (by simpa [wfArg] using w1) d pkg name sc targs w2'), fun h => by simp [identical, unalias] at h⟩
+    | pointer e =>
+      refine ⟨fun h => ?_, fun h => by simp [identical, unalias] at h⟩
+      rw [h] at hh; rw [hh] at hh2; simp [argKind] at hh2
+    | slice e =>
+      refine ⟨fun h => ?_, fun h => by simp [identical, unalias] at h⟩
+      rw [h] at hh; rw [hh] at hh2; simp [argKind] at hh2
+    | array _ _ => simp [wfArg] at w2'
+    | map _ _ => simp [wfArg] at w2'
+    | chan _ _ => simp [wfArg] at w2'
+    | func _ _ _ => simp [wfArg] at w2'
+    | struct _ => simp [wfArg] at w2'
+    | iface _ => simp [wfArg] at w2'
+  | .pointer e, t₂, w1, w2, s1, s2 => by
+    rw [argStr_unalias t₂, identical_unalias_r]
+    have w2' : wfArg (unalias t₂) = true := by rw [wfArg_unalias]; exact w2
+    have s2' : declKeys (unalias t₂) ⊆ E := by rw [declKeys_unalias]; exact s2
+    have hh := argHead_argStr (.pointer e) w1
+    have hh2 := argHead_argStr (unalias t₂) w2'
+    have hna := unalias_ne_alias t₂
+    generalize unalias t₂ = u at *
+    cases u with
+    | alias n a => exact absurd rfl (hna n a)
+    | pointer e' =>
+      simp only [argStr, identical, unalias, List.cons.injEq, true_and]
+      exact argInj e e' (by simpa [wfArg] using w1) (by simpa [wfArg] using w2') (by simpa [declKeys] using s1) (by simpa [declKeys] using s2')
+    | basic _ =>
+      refine ⟨fun h => ?_, fun h => by simp [identical, unalias] at h⟩
+      rw [h] at hh; rw [hh] at hh2; simp [argKind] at hh2
+    | named _ _ _ _ _ =>
+      refine ⟨fun h => ?_, fun h => by simp [identical, unalias] at h⟩
+      rw [h] at hh; rw [hh] at hh2; simp [argKind] at hh2
+    | slice _ =>
+      refine ⟨fun h => ?_, fun h => by simp [identical, unalias] at h⟩
+      rw [h] at hh; rw [hh] at hh2; simp [argKind] at hh2
+    | array _ _ => simp [wfArg] at w2'
+    | map _ _ => simp [wfArg] at w2'
+    | chan _ _ => simp [wfArg] at w2'
+    | func _ _ _ => simp [wfArg] at w2'
+    | struct _ => simp [wfArg] at w2'
+    | iface _ => simp [wfArg] at w2'
+  | .slice e, t₂, w1, w2, s1, s2 => by
+    rw [argStr_unalias t₂, identical_unalias_r]
+    have w2' : wfArg (unalias t₂) = true := by rw [wfArg_unalias]; exact w2
+    have s2' : declKeys (unalias t₂) ⊆ E := by rw [declKeys_unalias]; exact s2
+    have hh := argHead_argStr (.slice e) w1
+    have hh2 := argHead_argStr (unalias t₂) w2'
+    have hna := unalias_ne_alias t₂
+    generalize unalias t₂ = u at *
+    cases u with
+    | alias n a => exact absurd rfl (hna n a)
+    | slice e' =>
+      simp only [argStr, identical, unalias, List.cons.injEq, true_and]
+      exact argInj e e' (by simpa [wfArg] using w1) (by simpa [wfArg] using w2') (by simpa [declKeys] using s1) (by simpa [declKeys] using s2')
+    | basic _ =>
+      refine ⟨fun h => ?_, fun h => by simp [identical, unalias] at h⟩
+      rw [h] at hh; rw [hh] at hh2; simp [argKind] at hh2
+    | named _ _ _ _ _ =>
+      refine ⟨fun h => ?_, fun h => by simp [identical, unalias] at h⟩
+      rw [h] at hh; rw [hh] at hh2; simp [argKind] at hh2
+    | pointer _ =>
+      refine ⟨fun h => ?_, fun h => by simp [identical, unalias] at h⟩
+      rw [h] at hh; rw [hh] at hh2; simp [argKind] at hh2
+    | array _ _ => simp [wfArg] at w2'
+    | map _ _ => simp [wfArg] at w2'
+    | chan _ _ => simp [wfArg] at w2'
+    | func _ _ _ => simp [wfArg] at w2'
+    | struct _ => simp [wfArg] at w2'
+    | iface _ => simp [wfArg] at w2'
+  | .named d pkg name sc targs, t₂, w1, w2, s1, s2 => by
+    rw [argStr_unalias t₂, identical_unalias_r]
+    have w2' : wfArg (unalias t₂) = true := by rw [wfArg_unalias]; exact w2
+    have s2' : declKeys (unalias t₂) ⊆ E := by rw [declKeys_unalias]; exact s2
+    have hh := argHead_argStr (.named d pkg name sc targs) w1
+    have hh2 := argHead_argStr (unalias t₂) w2'
+    have hna := unalias_ne_alias t₂
+    obtain ⟨e1, k1, tn1, _⟩ := argStr_named d pkg name sc targs w1
+    have m1 : (d, keyOf pkg name sc) ∈ E := s1 (by simp [declKeys])
+    obtain ⟨u, hu⟩ : ∃ u, unalias t₂ = u := ⟨_, rfl⟩
+    rw [hu] at w2' s2' hh2 hna ⊢
+    clear hu
+    cases u with
+    | alias n a => exact absurd rfl (hna n a)
+    | named d' pkg' name' sc' targs' =>
+      obtain ⟨e2, k2, tn2, _⟩ := argStr_named d' pkg' name' sc' targs' w2'
+      have m2 : (d', keyOf pkg' name' sc') ∈ E := s2' (by simp [declKeys])
+      rw [e1, e2]
+      subst tn1; subst tn2
+      simp only [identical, unalias, identicalL, Bool.and_true, beq_iff_eq]
+      constructor
+      · intro h; exact (hE (d, keyOf pkg name sc) m1 (d', keyOf pkg' name' sc') m2).2 (renderKey_inj k1 k2 h)
+      · intro h
+        have := (hE (d, keyOf pkg name sc) m1 (d', keyOf pkg' name' sc') m2).1 h
+        simp only at this
+        rw [this]
+    | basic k' =>
+      refine ⟨fun h => absurd h.symm (basic_ne_named k' (by simpa [wfArg] using w2') d pkg name sc targs w1), fun h => by simp [identical, unalias] at h⟩
+    | pointer _ =>
+      refine ⟨fun h => ?_, fun h => by simp [identical, unalias] at h⟩
+      rw [h] at hh; rw [hh] at hh2; simp [argKind] at hh2
+    | slice _ =>
+      refine ⟨fun h => ?_, fun h => by simp [identical, unalias] at h⟩
+      rw [h] at hh; rw [hh] at hh2; simp [argKind] at hh2
+    | array _ _ => simp [wfArg] at w2'
+    | map _ _ => simp [wfArg] at w2'
+    | chan _ _ => simp [wfArg] at w2'
+    | func _ _ _ => simp [wfArg] at w2'
+    | struct _ => simp [wfArg] at w2'
+    | iface _ => simp [wfArg] at w2'
+  | .array _ _, _, w1, _, _, _ => by simp [wfArg] at w1
+  | .map _ _, _, w1, _, _, _ => by simp [wfArg] at w1
+  | .chan _ _, _, w1, _, _, _ => by simp [wfArg] at w1
+  | .func _ _ _, _, w1, _, _, _ => by simp [wfArg] at w1
+  | .struct _, _, w1, _, _, _ => by simp [wfArg] at w1
+  | .iface _, _, w1, _, _, _ => by simp [wfArg] at w1
+
+include hE in
+theorem argInjL : ∀ (l₁ l₂ : TList), wfArgs l₁ = true → wfArgs l₂ = true → declKeysL l₁ ⊆ E → declKeysL l₂ ⊆ E →
+    (argStrs l₁ = argStrs l₂ ↔ identicalL l₁ l₂ = true)
+  | .nil, .nil, _, _, _, _ => by simp [argStrs, identicalL]
+  | .nil, .cons t r, _, w2, _, _ => by
+    simp only [wfArgs, Bool.and_eq_true] at w2
+    have ne := (argStr_inv t w2.1).2.2
+    simp only [argStrs, identicalL, Bool.false_eq_true, iff_false]
+    split
+    · exact fun h => ne h.symm
+    · intro h
+      have := congrArg List.length h
+      cases hl : argStr t with
+      | nil => exact ne hl
+      | cons _ _ => simp [hl] at this
+  | .cons t r, .nil, w1, _, _, _ => by
+    simp only [wfArgs, Bool.and_eq_true] at w1
+    have ne := (argStr_inv t w1.1).2.2
+    simp only [argStrs, identicalL, Bool.false_eq_true, iff_false]
+    split
+    · exact fun h => ne h
+    · intro h
+      have := congrArg List.length h
+      cases hl : argStr t with
+      | nil => exact ne hl
+      | cons _ _ => simp [hl] at this
+  | .cons t r, .cons t' r', w1, w2, s1, s2 => by
+    simp only [wfArgs, Bool.and_eq_true] at w1 w2
+    simp only [declKeysL, List.append_subset] at s1 s2
+    have iht := argInj hE t t' w1.1 w2.1 s1.1 s2.1
+    have ihr := argInjL r r' w1.2 w2.2 s1.2 s2.2
+    have c1 := (argStr_inv t w1.1).2.1
+    have c2 := (argStr_inv t' w2.1).2.1
+    simp only [argStrs, identicalL, Bool.and_eq_true]
+    cases r with
+    | nil =>
+      cases r' with
+      | nil => simp only [TList.isNil, if_true]; simpa [identicalL] using iht
+      | cons u r2 =>
+        simp only [TList.isNil, if_true, Bool.false_eq_true, if_false, identicalL, and_false, iff_false]
+        intro h
+        have : ',' ∈ argStr t := by rw [h]; simp
+        exact c1 this
+    | cons u r2 =>
+      cases r' with
+      | nil =>
+        simp only [TList.isNil, if_true, Bool.false_eq_true, if_false, identicalL, and_false, iff_false]
+        intro h
+        have : ',' ∈ argStr t' := by rw [← h]; simp
+        exact c2 this
+      | cons u' r3 =>
+        simp only [TList.isNil, Bool.false_eq_true, if_false]
+        constructor
+        · intro h
+          have sp := splitFirst ',' _ _ _ _ c1 c2 h
+          exact ⟨iht.1 sp.1, ihr.1 sp.2⟩
+        · intro h
+          rw [iht.2 h.1, ihr.2 h.2]
+
+theorem identicalL_isNil (l₁ l₂ : TList) (h : identicalL l₁ l₂ = true) : l₁.isNil = l₂.isNil := by
+  cases l₁ <;> cases l₂ <;> simp_all [identicalL, TList.isNil]
+
 include hclean in
 theorem inj_basic (k : BasicKind) (t₂ : GoType) (h2 : Hyp cfg ex E t₂) :
     nameC cfg hc false (.basic k) = nameC cfg hc false t₂ ↔ identical (.basic k) t₂ = true := by
@@ -525,9 +963,10 @@ theorem inj_basic (k : BasicKind) (t₂ : GoType) (h2 : Hyp cfg ex E t₂) :
     | none =>
       refine ⟨fun h => ?_, fun h => by simp [identical, unalias] at h⟩
       exfalso
-      obtain ⟨hn, hk⟩ := name_named_eq hc d none name sc targs h2'.1
+      obtain ⟨hn, hk, _, hnil⟩ := name_named_eq hc d none name sc targs h2'.1
       rw [hn] at h
-      simp only [nameC, keyOf, renderKey] at h
+      have ea : argsPart targs = [] := hnil rfl
+      simp only [nameC, keyOf, renderNamed, ea, List.append_nil] at h
       have := List.append_cancel_left h
       have hr := hk.2.2
       simp only [keyOf] at hr
@@ -550,35 +989,44 @@ theorem inj_named (d : Nat) (pkg : Option Str) (name : Str) (sc : Scope) (targs 
   rw [hN, hI]
   have c1 := class_name hclean _ h1.1
   have c2 := class_name hclean u h2'.1
-  obtain ⟨hn1, hk1⟩ := name_named_eq hc d pkg name sc targs h1.1
-  have ht1 : targs = .nil := by
-    have := h1.1
-    simp only [wfT, Bool.and_eq_true] at this
-    cases targs with
-    | nil => rfl
-    | cons _ _ => simp [TList.isNil] at this
+  obtain ⟨hn1, hk1, hs1, hz1⟩ := name_named_eq hc d pkg name sc targs h1.1
+  obtain ⟨_, wa1, _, _, _⟩ := name_named_shape d pkg name sc targs h1.1
   have m1 : (d, keyOf pkg name sc) ∈ E := h1.2.2 (by simp [declKeys])
+  have sa1 : declKeysL targs ⊆ E := fun x hx => h1.2.2 (by simp [declKeys, hx])
   cases u with
   | alias n a => exact absurd rfl (hna n a)
   | named d' pkg' name' sc' targs' =>
-    obtain ⟨hn2, hk2⟩ := name_named_eq hc d' pkg' name' sc' targs' h2'.1
-    have ht2 : targs' = .nil := by
-      have := h2'.1
-      simp only [wfT, Bool.and_eq_true] at this
-      cases targs' with
-      | nil => rfl
-      | cons _ _ => simp [TList.isNil] at this
+    obtain ⟨hn2, hk2, hs2, hz2⟩ := name_named_eq hc d' pkg' name' sc' targs' h2'.1
+    obtain ⟨_, wa2, _, _, _⟩ := name_named_shape d' pkg' name' sc' targs' h2'.1
     have m2 : (d', keyOf pkg' name' sc') ∈ E := h2'.2.2 (by simp [declKeys])
+    have sa2 : declKeysL targs' ⊆ E := fun x hx => h2'.2.2 (by simp [declKeys, hx])
+    have ia := argInjL hE targs targs' wa1 wa2 sa1 sa2
     rw [hn1, hn2]
-    subst ht1; subst ht2
-    simp only [identical, unalias, identicalL, Bool.and_true, beq_iff_eq]
+    simp only [identical, unalias, Bool.and_eq_true, beq_iff_eq]
     constructor
     · intro h
-      exact (hE _ m1 _ m2).2 (renderKey_inj hk1 hk2 (List.append_cancel_left h))
+      obtain ⟨hkey, hargs⟩ := renderNamed_inj hk1 hk2 hs1 hs2 hz1 hz2 (List.append_cancel_left h)
+      refine ⟨(hE (d, keyOf pkg name sc) m1 (d', keyOf pkg' name' sc') m2).2 hkey, ?_⟩
+      unfold argsPart at hargs
+      cases hn : targs.isNil <;> cases hn' : targs'.isNil
+      · simp only [hn, hn', Bool.false_eq_true, if_false] at hargs
+        exact ia.1 (List.append_cancel_right (List.tail_eq_of_cons_eq hargs))
+      · simp [hn, hn'] at hargs
+      · simp [hn, hn'] at hargs
+      · cases targs with
+        | cons _ _ => simp [TList.isNil] at hn
+        | nil =>
+          cases targs' with
+          | cons _ _ => simp [TList.isNil] at hn'
+          | nil => simp [identicalL]
     · intro h
-      have := (hE _ m1 _ m2).1 h
-      simp only at this
-      rw [this]
+      have hkey := (hE (d, keyOf pkg name sc) m1 (d', keyOf pkg' name' sc') m2).1 h.1
+      simp only at hkey
+      have hs := ia.2 h.2
+      have hnil := identicalL_isNil _ _ h.2
+      rw [hkey]
+      unfold argsPart
+      rw [hnil, hs]
   | basic k' =>
     have := inj_basic hclean (cfg := cfg) (ex := ex) (E := E) k' (.named d pkg name sc targs) h1
     constructor
@@ -597,7 +1045,8 @@ theorem inj_named (d : Nat) (pkg : Option Str) (name : Str) (sc : Scope) (targs 
         simp [typeClass, MList.isNil] at hx
       | none =>
         rw [hn1] at h
-        simp only [nameC, MList.isNil, if_true, keyOf, renderKey] at h
+        have ea : argsPart targs = [] := hz1 rfl
+        simp only [nameC, MList.isNil, if_true, keyOf, renderNamed, ea, List.append_nil] at h
         have hr := hk1.2.2
         simp only [keyOf] at hr
         have e : litAny = llgoPrefix ++ ['a', 'n', 'y'] := rfl
@@ -612,7 +1061,6 @@ theorem inj_named (d : Nat) (pkg : Option Str) (name : Str) (sc : Scope) (targs 
   | chan d _ => cases pkg <;> cases d <;> mismatch c1 c2
   | func _ _ _ => cases pkg <;> mismatch c1 c2
   | struct _ => cases pkg <;> mismatch c1 c2
-
 
 theorem hypF_cons {n : Str} {p : Option Str} {e : Bool} {g : Str} {t : GoType} {r : FList}
     (h : HypF cfg ex E (.cons n p e g t r)) :
